@@ -850,4 +850,164 @@ theorem getItem_readback_steps (cls : Cls) (kvs : List (Str × Val)) (q : Pos) (
     exact getItem_spelled cls kvs' _ _ _ v fuel (hqm _) (hpc _) (by rw [← List.append_assoc]; exact htok) hs (by simp)
       (by simp; omega)
 
+/-! ### read-back when the first step is a bare `[new()]` / `[len]` -/
+
+theorem NoParenPos.prefix {p r : Pos} (h : NoParenPos (p ++ r)) : NoParenPos p := by
+  induction p with
+  | nil => trivial
+  | cons s p ih =>
+    cases s with
+    | key k => exact ⟨h.1, ih h.2⟩
+    | idx n => exact ih h
+
+theorem NoParenPos.last_key {pp : Pos} {k : Str} (h : NoParenPos (pp ++ [.key k])) : NoParen k := by
+  induction pp with
+  | nil => exact h.1
+  | cons s pp ih =>
+    cases s with
+    | key k' => exact ih h.2
+    | idx n => exact ih h
+
+theorem tokenize_idx_first_path' (q0 : Pos) (i : Nat) (hp : PlainPos (q0 ++ [Seg.idx i])) (e : Str) (he : CleanIdx e)
+    (steps : List CStep) (hsteps : ∀ x ∈ steps, x.tokOk) :
+    tokenize (slash ++ renderPos (q0 ++ [Seg.idx i]) ++ (CStep.idx e :: steps).flatMap renderCStep)
+      = mergedToks (q0 ++ [Seg.idx i]) ++ bracket e :: steps.map stepTok := by
+  rw [List.flatMap_cons, ← List.append_assoc, tokenize_then_steps' steps _ hsteps]
+  simp only [renderCStep]
+  rw [renderPos_snoc_idx, tokenize_append_bracket _ e he, ← renderPos_snoc_idx,
+    show slash ++ renderPos (q0 ++ [Seg.idx i]) = '/' :: renderPos (q0 ++ [Seg.idx i]) from rfl,
+    tokenize_render _ hp]
+  simp
+
+theorem idxTok_last : IdxTok (bracket sLast) sLast (-1) :=
+  idxExpr_last.idxTok (by decide) (by decide) n0eval_last
+
+/-- **read-back, bare index first step**: after `d[//…q…[new()]/steps…] = v` (or `[len]`) on the list
+at `q`, the value reads back through the path with `new()` replaced by `last()`. -/
+theorem getItem_readback_idx (cls : Cls) (kvs : List (Str × Val)) (q : Pos) (cur cur' : Val) (e : Str)
+    (steps : List CStep) (v t' : Val) (fuel : Nat)
+    (hp : PlainPos q) (hget : getAt (.dict cls kvs) q = some cur) (hsteps : ∀ x ∈ steps, x.later)
+    (hnq : NoParenPos q) (hnp : ∀ x ∈ steps, NoParen x.nameOf)
+    (hcreate : createIn cur (.idx e :: steps) v = some cur') (hset : setAt (.dict cls kvs) q cur' = some t')
+    (hf : fuel ≥ 2 * (q.length + steps.length + 1)) :
+    getItem fuel t' (replace sNew sLast (slash ++ renderPos q ++ (CStep.idx e :: steps).flatMap renderCStep))
+      = (t', .ok v) := by
+  obtain ⟨c, xs, rfl⟩ := createIn_idx_list hcreate
+  obtain ⟨he, rfl⟩ := createIn_idx_inv hcreate
+  have hne : q ≠ [] := by
+    rintro rfl
+    simp [getAt] at hget
+  obtain ⟨q0, last, rfl⟩ : ∃ q0 last, q = q0 ++ [last] :=
+    ⟨q.dropLast, q.getLast hne, (List.dropLast_concat_getLast hne).symm⟩
+  have hp0 : PlainPos q0 := hp.prefix
+  have hget' := hget
+  rw [getAt_snoc] at hget'
+  cases hpv : getAt (.dict cls kvs) q0 with
+  | none => simp [hpv] at hget'
+  | some pv =>
+    simp only [hpv, Option.bind] at hget'
+    cases last with
+    | key name =>
+      obtain ⟨kcls, nkvs, rfl, hl⟩ := child_key_some hget'
+      rw [render_idx_under_key]
+      have hcreate' : createIn (.dict kcls nkvs) (.elem name e :: steps) v
+          = some (.dict kcls (kvSet name (.list c (xs ++ [fill steps v])) nkvs)) := by
+        rcases he with rfl | rfl
+        · simp [createIn, hl, appendTo]
+        · simp [createIn, hl, natStr_ne_new]
+      have hset' : setAt (.dict cls kvs) q0 (.dict kcls (kvSet name (.list c (xs ++ [fill steps v])) nkvs)) = some t' := by
+        rw [← setAt_snoc q0 _ (.key name) (.list c (xs ++ [fill steps v])) (.dict kcls nkvs) _ hpv (by simp [setChild])]
+        exact hset
+      exact getItem_readback_steps cls kvs q0 kcls nkvs (.elem name e) steps v _ t' fuel hp0 hpv hp.last_key
+        (by intro e' h; cases h) hsteps hnq.prefix
+        (by
+          intro x hx; simp only [List.mem_cons] at hx
+          rcases hx with rfl | hx
+          · exact hnq.last_key
+          · exact hnp x hx)
+        hcreate' hset' (by simp at hf ⊢; omega)
+    | idx i =>
+      obtain ⟨c0, ys, rfl, hi, _⟩ := child_idx_some hget'
+      obtain ⟨kvs', rfl⟩ := setAt_dict_root' cls kvs _ _ t' (by simp) hset
+      have hgq : getAt (.dict cls kvs') (q0 ++ [Seg.idx i]) = some (.list c (xs ++ [fill steps v])) :=
+        getAt_setAt_same _ _ _ _ hset (fun _ _ => trivial)
+      have hlen := mergedToks_length_le (q0 ++ [Seg.idx i])
+      have hs1 := spells_merged _ _ _ hp hgq
+      have hfill := spells_fill steps v hsteps
+      have hstepsTok : ∀ x ∈ steps.map lastify, x.tokOk := by
+        intro x hx
+        obtain ⟨y, hy, rfl⟩ := List.mem_map.1 hx
+        exact tokOk_lastify (hsteps y hy)
+      have hstepsNP : ∀ x ∈ steps, x.noParen := by
+        intro x hx
+        have hl := hsteps x hx
+        have hn := hnp x hx
+        cases x with
+        | name n => exact hn
+        | elem n e =>
+          refine ⟨hn, ?_⟩
+          rcases hl.2 with rfl | rfl
+          · exact Or.inl rfl
+          · exact Or.inr (by intro c hc h; subst h; simp at hc)
+        | idx e => exact absurd hl (by simp [CStep.later])
+      obtain ⟨j, hkj, hnj⟩ : ∃ j : Int, IdxTok (bracket (lastIdx e)) (lastIdx e) j ∧
+          normIdx j (xs ++ [fill steps v]).length = some xs.length := by
+        by_cases h : e = sNew
+        · subst h
+          refine ⟨-1, by simpa [lastIdx] using idxTok_last, ?_⟩
+          have := normIdx_last (xs ++ [fill steps v]).length (by simp)
+          simpa using this
+        · have he' : e = natStr xs.length := by
+            rcases he with he | he
+            · exact absurd he h
+            · exact he
+          subst he'
+          refine ⟨(xs.length : Int), ?_, normIdx_nat (by simp)⟩
+          simp only [lastIdx, h, if_false]
+          exact natStr_idxTok _
+      have heOk : IdxOk e := by
+        rcases he with he | he
+        · exact Or.inl he
+        · exact Or.inr (by rw [he]; exact noParen_natStr _)
+      have hce : CleanIdx (lastIdx e) := by
+        by_cases h : e = sNew
+        · simp only [lastIdx, h, if_true]; exact cleanIdx_last
+        · simp only [lastIdx, h, if_false]
+          rcases he with he | he
+          · exact absurd he h
+          · rw [he]; exact cleanIdx_nat _
+      rw [replace_path _ _ hnq (by
+        intro x hx; simp only [List.mem_cons] at hx
+        rcases hx with rfl | hx
+        · exact heOk
+        · exact hstepsNP x hx)]
+      simp only [List.map_cons, lastify]
+      have htok := tokenize_idx_first_path' q0 i hp (lastIdx e) hce (steps.map lastify) hstepsTok
+      have hs2 : Spells (bracket (lastIdx e) :: (steps.map lastify).map stepTok)
+          (.list c (xs ++ [fill steps v])) (.idx xs.length :: fillPos steps) v :=
+        .idx hkj hnj (by simp) hfill
+      have hs := hs1.append hs2
+      rw [List.append_assoc]
+      exact getItem_spelled cls kvs' _ _ _ v fuel (by simp [slash, startsWith]) (by simp [hasPathChar, slash])
+        (by rw [← List.append_assoc]; exact htok) hs (by simp) (by simp at hlen hf ⊢; omega)
+
+/-- **read-back, every path of the honoured grammar** (whatever the first step) -/
+theorem getItem_readback_any (cls : Cls) (kvs : List (Str × Val)) (q : Pos) (cur cur' : Val) (s : CStep)
+    (steps : List CStep) (v t' : Val) (fuel : Nat)
+    (hp : PlainPos q) (hget : getAt (.dict cls kvs) q = some cur) (hfirst : s.first)
+    (hsteps : ∀ x ∈ steps, x.later) (hnq : NoParenPos q) (hnp : ∀ x ∈ s :: steps, NoParen x.nameOf)
+    (hcreate : createIn cur (s :: steps) v = some cur') (hset : setAt (.dict cls kvs) q cur' = some t')
+    (hf : fuel ≥ 2 * (q.length + steps.length + 1)) :
+    getItem fuel t' (replace sNew sLast (slash ++ renderPos q ++ (s :: steps).flatMap renderCStep)) = (t', .ok v) := by
+  by_cases hidx : ∀ e, s ≠ .idx e
+  · obtain ⟨kcls, nkvs, rfl⟩ := createIn_named_dict hcreate hidx
+    exact getItem_readback_steps cls kvs q kcls nkvs s steps v cur' t' fuel hp hget hfirst hidx hsteps hnq hnp hcreate hset hf
+  · obtain ⟨e, rfl⟩ : ∃ e, s = .idx e := by
+      cases s with
+      | idx e => exact ⟨e, rfl⟩
+      | name n => exact absurd (by intro e h; cases h) hidx
+      | elem n e => exact absurd (by intro e h; cases h) hidx
+    exact getItem_readback_idx cls kvs q cur cur' e steps v t' fuel hp hget hsteps hnq
+      (fun x hx => hnp x (by simp [hx])) hcreate hset hf
+
 end N0.XPath
